@@ -210,6 +210,10 @@ def sched_scenarios(tier, runs=None):
         out.append(sched("closeboth-data", [("p", [op("write", "a", 3), op("close", "a"), op("readall", "a", 0, buf=8)]), ("q", [op("write", "b", 2), op("close", "b"), op("readall", "b", 0, buf=8)])], carrier=car, maxpre=2, maxruns=mr))
         # the reader closes while the writer is writing
         out.append(sched("rclose", [("w", [op("write", "a", 6), op("flush", "a"), op("write", "a", 1), op("flush", "a")]), ("q", [op("close", "b")])], carrier=car, maxpre=2, maxruns=mr))
+        # ... and a data packet for the closed session arrives afterwards, while the local write may still be in flight
+        out.append(sched("rclose-late", [("w", [op("write", "a", 6), op("flush", "a"), op("write", "a", 1), op("flush", "a")]),
+                                         ("q", [op("close", "b"), op("inject", "a", 0, kind="closedsid"), op("inject", "a", 0, kind="closedsid")])],
+                         carrier=car, maxpre=2, maxruns=mr))
         # Read against the local Close
         out.append(sched("readclose", [("r", [op("readall", "b", 0, buf=8)]), ("q", [op("close", "b")])], carrier=car, maxpre=2, maxruns=mr))
     # opening under the scheduler: the accepting side writes at once
